@@ -117,31 +117,27 @@ Definition add_attr (a : attr) (doc : text) (c : schema) :=
   if fieldlike a then Schema (c_fields c ++ [(a, doc)]) (c_consts c) (c_doc c) (c_mode c) (c_union c) (c_offset c)
   else Schema (c_fields c) (c_consts c ++ [(a, doc)]) (c_doc c) (c_mode c) (c_union c) (c_offset c).
 
-(* the mutable state of _ParseTreeProcessor + DataTypeBuilder *)
+(* the mutable state of _ParseTreeProcessor + DataTypeBuilder; _structs = closed ++ [cur] *)
 Record st := St {
   comment : text;                          (* _comment *)
   header : bool;                           (* _comment_is_header *)
   pending : option (attr * bool * Z);      (* _element_callback (+ whether it will raise) and _pending_attribute_line_number *)
-  req : schema;                            (* _structs[0] *)
-  resp : option schema;                    (* _structs[1] *)
+  closed : option schema;                  (* the request schema once the service marker has been seen *)
+  cur : schema;                            (* _structs[-1] *)
   deprecated : bool;                       (* _is_deprecated *)
   line_no : Z;                             (* _current_line_number *)
   world : W
 }.
-Definition init (w : W) : st := St [] true None schema0 None false 1 w.
-Definition cur (s : st) : schema := match resp s with Some c => c | None => req s end.
+Definition init (w : W) : st := St [] true None None schema0 false 1 w.
 Definition with_cur (f : schema -> schema) (s : st) : st :=
-  match resp s with
-  | Some c => St (comment s) (header s) (pending s) (req s) (Some (f c)) (deprecated s) (line_no s) (world s)
-  | None => St (comment s) (header s) (pending s) (f (req s)) None (deprecated s) (line_no s) (world s)
-  end.
-Definition set_buf (b : text) (s : st) := St b (header s) (pending s) (req s) (resp s) (deprecated s) (line_no s) (world s).
-Definition set_header (h : bool) (s : st) := St (comment s) h (pending s) (req s) (resp s) (deprecated s) (line_no s) (world s).
-Definition set_pending (p : option (attr * bool * Z)) (s : st) := St (comment s) (header s) p (req s) (resp s) (deprecated s) (line_no s) (world s).
-Definition set_resp (c : schema) (s : st) := St (comment s) (header s) (pending s) (req s) (Some c) (deprecated s) (line_no s) (world s).
-Definition set_deprecated (s : st) := St (comment s) (header s) (pending s) (req s) (resp s) true (line_no s) (world s).
-Definition set_line (n : Z) (s : st) := St (comment s) (header s) (pending s) (req s) (resp s) (deprecated s) n (world s).
-Definition set_world (w : W) (s : st) := St (comment s) (header s) (pending s) (req s) (resp s) (deprecated s) (line_no s) w.
+  St (comment s) (header s) (pending s) (closed s) (f (cur s)) (deprecated s) (line_no s) (world s).
+Definition set_buf (b : text) (s : st) := St b (header s) (pending s) (closed s) (cur s) (deprecated s) (line_no s) (world s).
+Definition set_header (h : bool) (s : st) := St (comment s) h (pending s) (closed s) (cur s) (deprecated s) (line_no s) (world s).
+Definition set_pending (p : option (attr * bool * Z)) (s : st) := St (comment s) (header s) p (closed s) (cur s) (deprecated s) (line_no s) (world s).
+Definition open_response (s : st) := St (comment s) (header s) (pending s) (Some (cur s)) schema0 (deprecated s) (line_no s) (world s).
+Definition set_deprecated (s : st) := St (comment s) (header s) (pending s) (closed s) (cur s) true (line_no s) (world s).
+Definition set_line (n : Z) (s : st) := St (comment s) (header s) (pending s) (closed s) (cur s) (deprecated s) n (world s).
+Definition set_world (w : W) (s : st) := St (comment s) (header s) (pending s) (closed s) (cur s) (deprecated s) (line_no s) w.
 
 Definition raise_at (n : Z) (s : st) : res st := Err (ELoc None (Some n)) (world s).
 Definition raise_here (s : st) : res st := raise_at (line_no s) s.
@@ -202,7 +198,7 @@ Definition do_dir (k : dkind) (g : darg) (shown : text) (s : st) : res st :=
       end
   | KDeprecated =>
       match g with
-      | GNone => if deprecated s || negb (is_nil (match resp s with Some _ => [tt] | None => [] end)) || has_attrs (cur s)
+      | GNone => if deprecated s || (match closed s with Some _ => true | None => false end) || has_attrs (cur s)
                  then raise_here s else Ok (set_deprecated s)
       | _ => raise_here s
       end
@@ -221,9 +217,9 @@ Definition do_act (x : action) (s : st) : res st :=
     | XDir k g shown => do_dir k g shown s1
     | XMarker =>
         let s2 := set_header true s1 in
-        match resp s2 with
+        match closed s2 with
         | Some _ => raise_here s2
-        | None => Ok (set_resp schema0 s2)
+        | None => Ok (open_response s2)
         end
     end).
 
@@ -269,15 +265,16 @@ Definition close (c : schema) : option sect :=
 Definition no_loc : eloc := ELoc None None.
 
 Definition finalize (s : st) : res (model * W) :=
-  match close (req s) with
-  | None => Err no_loc (world s)
-  | Some rq =>
-      match resp s with
-      | None => Ok (Model (deprecated s) rq None, world s)
-      | Some c => match close c with
-                  | None => Err no_loc (world s)
-                  | Some rs => Ok (Model (deprecated s) rq (Some rs), world s)
-                  end
+  match closed s with
+  | None =>
+      match close (cur s) with
+      | None => Err no_loc (world s)
+      | Some rq => Ok (Model (deprecated s) rq None, world s)
+      end
+  | Some c =>
+      match close c, close (cur s) with
+      | Some rq, Some rs => Ok (Model (deprecated s) rq (Some rs), world s)
+      | _, _ => Err no_loc (world s)
       end
   end.
 
